@@ -1,6 +1,957 @@
-/- C15 - property theorems (stub: not built yet) -/
+/-
+C15 - The CRL cache returns only fresh, byte-faithful bundles for the exact URL.
+Property theorems only; the model is in `Model/C15.lean`.
+
+Layout: (1) facts pinned to the Go source, (2) hex names and confinement, concretely,
+(3) the directory map, (4) refinement of the file-level cache to `URL → Option content` for
+arbitrary operation sequences, (5) the readable theorems, (6) `model_holds`.
+-/
 import NotationModel.Model.C15
+import NotationModel.Generated.C15
+set_option linter.unusedSimpArgs false
+set_option linter.unusedVariables false
 
 namespace NotationModel.C15
+
+/-! ### (1) facts read from the Go source this run - what the model assumes about the code -/
+
+/-- `fileName` is hex of SHA-256 of the URL and nothing else -/
+theorem fact_fileName_is_hex_of_sha256 :
+    Facts.crlFileNameCalls = ["sha256.Sum256", "hex.EncodeToString"] := by decide
+
+/-- `Get` reads exactly `root/fileName(url)` and touches nothing else -/
+theorem fact_get_reads_root_fileName :
+    Facts.crlGetCalls = ["os.ReadFile(filepath.Join(c.root,c.fileName(url)))"] := by decide
+
+/-- `Set` writes exactly `root/fileName(url)` through `file.WriteFile` with temp dir = root -/
+theorem fact_set_writes_root_fileName :
+    Facts.crlSetCalls = ["file.WriteFile(c.root,filepath.Join(c.root,c.fileName(url)),contentBytes)"] := by decide
+
+/-- `file.WriteFile(tempDir, path, content)`: the temp file is created in `tempDir`, the only
+other path touched is `path` (rename target) -/
+theorem fact_writeFile_skeleton :
+    Facts.writeFileParams = ["tempDir", "path", "content"] ∧
+    Facts.writeFileSteps = ["os.CreateTemp(tempDir,tempFileNamePrefix)", "tempFile.Write(content)",
+      "tempFile.Close()", "os.Rename(tempFile.Name(),path)"] := by decide
+
+/-- the entry file is a JSON object with the base64 fields `baseCRL` and (optional) `deltaCRL`;
+the harness labels planted bytes with a struct carrying exactly these tags -/
+theorem fact_entry_fields :
+    Facts.crlContentFields =
+      [("BaseCRL", "[]byte", "baseCRL"), ("DeltaCRL", "[]byte", "deltaCRL,omitempty")] := by decide
+
+/-- `checkExpiry` is: zero `NextUpdate` -> a plain error; `time.Now().After(nextUpdate)` (strictly
+later - the boundary instant is still fresh) -> `ErrCacheMiss`; otherwise nil.
+Mirrored by `checkExpiry` of the model (`none => invalid`, `now > nu => expired`, else `fresh`). -/
+theorem fact_checkExpiry :
+    Facts.crlCheckExpiryTests =
+      [("nextUpdate.IsZero()", "errors.New"), ("time.Now().After(nextUpdate)", "corecrl.ErrCacheMiss")] ∧
+    Facts.crlCheckExpiryFinal = "nil" := by decide
+
+/-- `Get`: read, unmarshal, parse base, parse delta only when the field is non-nil, expiry of
+base, expiry of delta only when present - the order `getContent` transcribes -/
+theorem fact_get_order :
+    Facts.crlGetSteps =
+      ["os.ReadFile(filepath.Join(c.root,c.fileName(url)))", "json.Unmarshal(contentBytes,&content)",
+       "x509.ParseRevocationList(content.BaseCRL)", "x509.ParseRevocationList(content.DeltaCRL)",
+       "checkExpiry(ctx,bundle.BaseCRL.NextUpdate)", "checkExpiry(ctx,bundle.DeltaCRL.NextUpdate)"] ∧
+    Facts.crlGetConds =
+      ["err!=nil", "errors.Is(err,fs.ErrNotExist)", "err!=nil", "err!=nil", "content.DeltaCRL!=nil",
+       "err!=nil", "err!=nil", "bundle.DeltaCRL!=nil", "err!=nil"] := by decide
+
+/-- `Set`: nil bundle and nil BaseCRL are rejected before anything is written; the delta is
+stored only when present; then one `json.Marshal` and one `file.WriteFile` -/
+theorem fact_set_guards :
+    Facts.crlSetConds = ["bundle==nil", "bundle.BaseCRL==nil", "bundle.DeltaCRL!=nil", "err!=nil", "err!=nil"] ∧
+    Facts.crlSetSteps = ["json.Marshal", "file.WriteFile"] := by decide
+
+theorem fact_tempPrefix : tempPrefix = ['n', 'o', 't', 'a', 't', 'i', 'o', 'n', '-'] := by decide
+
+/-! ### (2) hex names -/
+
+theorem isHexChar_hexDigit (n : Nat) : isHexChar (hexDigit n) = true := by
+  have h : ∀ k, k < 16 → isHexChar (hexChars.getD k '0') = true := by decide
+  exact h (n % 16) (Nat.mod_lt _ (by decide))
+
+theorem hex_length (bs : List Nat) : (hex bs).length = 2 * bs.length := by
+  induction bs with
+  | nil => rfl
+  | cons b bs ih => simp only [hex, List.length_cons, ih]; omega
+
+theorem hex_all (bs : List Nat) : ∀ c ∈ hex bs, isHexChar c = true := by
+  induction bs with
+  | nil => intro c h; simp [hex] at h
+  | cons b bs ih =>
+    intro c h
+    simp only [hex, List.mem_cons] at h
+    rcases h with h | h | h
+    · rw [h]; exact isHexChar_hexDigit _
+    · rw [h]; exact isHexChar_hexDigit _
+    · exact ih c h
+
+theorem hexDigit_inj {a b : Nat} (ha : a < 16) (hb : b < 16) (h : hexDigit a = hexDigit b) : a = b := by
+  have key : ∀ a, a < 16 → ∀ b, b < 16 → hexChars.getD a '0' = hexChars.getD b '0' → a = b := by decide
+  have := key (a % 16) (Nat.mod_lt _ (by decide)) (b % 16) (Nat.mod_lt _ (by decide)) h
+  omega
+
+/-- hex encoding loses nothing: distinct digests give distinct file names -/
+theorem hex_inj : ∀ (xs ys : List Nat), (∀ b ∈ xs, b < 256) → (∀ b ∈ ys, b < 256) →
+    hex xs = hex ys → xs = ys := by
+  intro xs
+  induction xs with
+  | nil =>
+    intro ys _ _ h
+    cases ys with
+    | nil => rfl
+    | cons y ys => simp [hex] at h
+  | cons x xs ih =>
+    intro ys hx hy h
+    cases ys with
+    | nil => simp [hex] at h
+    | cons y ys =>
+      simp only [hex, List.cons.injEq] at h
+      obtain ⟨h1, h2, h3⟩ := h
+      have hx0 : x < 256 := hx x (by simp)
+      have hy0 : y < 256 := hy y (by simp)
+      have e1 : x / 16 = y / 16 := hexDigit_inj (by omega) (by omega) h1
+      have e2 : x % 16 = y % 16 := by
+        have key : ∀ a, a < 16 → ∀ b, b < 16 → hexChars.getD a '0' = hexChars.getD b '0' → a = b := by decide
+        exact key (x % 16) (Nat.mod_lt _ (by decide)) (y % 16) (Nat.mod_lt _ (by decide)) h2
+      have : x = y := by omega
+      rw [this, ih ys (fun b hb => hx b (by simp [hb])) (fun b hb => hy b (by simp [hb])) h3]
+
+/-- a hex character is no path separator, no dot, and not the first letter of a temp-file name -/
+theorem isHexChar_plain {c : Char} (h : isHexChar c = true) :
+    c ≠ '/' ∧ c ≠ '\\' ∧ c ≠ '.' ∧ c ≠ 'n' := by
+  simp only [isHexChar, hexChars, List.contains_eq_mem, List.mem_cons, List.not_mem_nil, or_false,
+    decide_eq_true_eq] at h
+  rcases h with h | h | h | h | h | h | h | h | h | h | h | h | h | h | h | h <;> subst h <;> decide
+
+section Names
+variable {U : Type}
+
+/-- **C15 `confined`, the name.** For every URL whatsoever (traversal shaped, absolute, empty,
+10k characters ...) the file name is exactly 64 characters of `[0-9a-f]`: it contains no
+separator and no dot, and can never be the name of a `file.WriteFile` temp file. -/
+theorem confined_name (dg : U → List Nat) (u : U) (h32 : (dg u).length = 32) :
+    (fileName dg u).length = 64 ∧ (∀ c ∈ fileName dg u, isHexChar c = true) ∧
+    '/' ∉ fileName dg u ∧ '\\' ∉ fileName dg u ∧ '.' ∉ fileName dg u ∧
+    ¬ tempPrefix <+: fileName dg u := by
+  have hall := hex_all (dg u)
+  refine ⟨by simp [fileName, hex_length, h32], hall, ?_, ?_, ?_, ?_⟩
+  · intro h; exact (isHexChar_plain (hall _ h)).1 rfl
+  · intro h; exact (isHexChar_plain (hall _ h)).2.1 rfl
+  · intro h; exact (isHexChar_plain (hall _ h)).2.2.1 rfl
+  · rw [fact_tempPrefix]
+    intro h
+    obtain ⟨t, ht⟩ := h
+    have hmem : 'n' ∈ fileName dg u := by rw [← ht]; simp
+    exact (isHexChar_plain (hall _ hmem)).2.2.2 rfl
+
+theorem isCachePath_iff (root p : Text) :
+    isCachePath root p = true ↔
+      ∃ h : Text, p = root ++ '/' :: h ∧ h.length = 64 ∧ ∀ c ∈ h, isHexChar c = true := by
+  unfold isCachePath
+  simp only [Bool.and_eq_true, List.isPrefixOf_iff_prefix, beq_iff_eq, List.all_eq_true]
+  constructor
+  · rintro ⟨⟨t, ht⟩, hl, ha⟩
+    have hd : p.drop (root.length + 1) = t := by
+      rw [← ht]
+      have : root.length + 1 = (root ++ ['/']).length := by simp
+      rw [this, List.drop_left]
+    rw [hd] at hl ha
+    exact ⟨t, by rw [← ht]; simp, hl, ha⟩
+  · rintro ⟨h, rfl, hl, ha⟩
+    have hd : (root ++ '/' :: h).drop (root.length + 1) = h := by
+      have e : root ++ '/' :: h = (root ++ ['/']) ++ h := by simp
+      have : root.length + 1 = (root ++ ['/']).length := by simp
+      rw [e, this, List.drop_left]
+    rw [hd]
+    exact ⟨⟨h, by simp⟩, hl, ha⟩
+
+/-- **C15 `confined`, the path.** The one path `Get` and `Set` touch for a URL is
+`root ++ "/" ++ h`, `h` 64 hex characters. -/
+theorem filePath_isCachePath (root : Text) (dg : U → List Nat) (u : U) (h32 : (dg u).length = 32) :
+    isCachePath root (filePath root dg u) = true := by
+  rw [isCachePath_iff]
+  have := confined_name dg u h32
+  exact ⟨fileName dg u, rfl, this.1, this.2.1⟩
+
+theorem filePath_under_root (root : Text) (dg : U → List Nat) (u : U) :
+    (root ++ ['/']).isPrefixOf (filePath root dg u) = true := by
+  rw [List.isPrefixOf_iff_prefix]
+  exact ⟨fileName dg u, by simp [filePath]⟩
+
+/-- distinct digests (of bytes) give distinct paths -/
+theorem filePath_inj (root : Text) (dg : U → List Nat) (u v : U)
+    (hu : ∀ b ∈ dg u, b < 256) (hv : ∀ b ∈ dg v, b < 256)
+    (h : filePath root dg u = filePath root dg v) : dg u = dg v := by
+  unfold filePath fileName at h
+  have := List.append_cancel_left h
+  simp only [List.cons.injEq, true_and] at this
+  exact hex_inj _ _ hu hv this
+
+end Names
+
+/-! ### (3) the directory map -/
+
+section FSLemmas
+variable {C : Type}
+
+theorem read_filter_ne (fs : FS C) (p q : Text) (h : q ≠ p) :
+    FS.read (fs.filter (fun e => e.1 != p)) q = FS.read fs q := by
+  induction fs with
+  | nil => rfl
+  | cons e r ih =>
+    obtain ⟨k, c⟩ := e
+    by_cases hk : k = p
+    · subst hk
+      have hq : ¬ k = q := fun e => h e.symm
+      simp [List.filter, FS.read, hq, ih]
+    · have : (k != p) = true := by simp [hk]
+      simp only [List.filter, this, FS.read]
+      by_cases hkq : k = q <;> simp [hkq, ih]
+
+theorem read_write_same (fs : FS C) (p : Text) (c : C) : (fs.write p c).read p = some c := by
+  simp [FS.write, FS.read]
+
+theorem read_write_other (fs : FS C) (p q : Text) (c : C) (h : q ≠ p) :
+    (fs.write p c).read q = fs.read q := by
+  have hp : ¬ p = q := fun e => h e.symm
+  simp only [FS.write, FS.read, hp, if_false]
+  exact read_filter_ne fs p q h
+
+theorem mem_write {fs : FS C} {p : Text} {c : C} {e : Text × C} (h : e ∈ fs.write p c) :
+    e = (p, c) ∨ e ∈ fs := by
+  simp only [FS.write, List.mem_cons, List.mem_filter] at h
+  rcases h with h | h
+  · exact Or.inl h
+  · exact Or.inr h.1
+
+end FSLemmas
+
+/-! ### (4) the file-level cache refines `URL → Option content`, for every operation sequence -/
+
+section Refinement
+variable {U D C : Type} [DecidableEq U] (cd : Codec D C) (root : Text) (dg : U → List Nat)
+
+/-- the directory and the abstract store agree on the URLs in use -/
+def Agrees (used : U → Prop) (fs : FS C) (st : U → Option C) : Prop :=
+  ∀ u, used u → fs.read (filePath root dg u) = st u
+
+/-- digest injectivity on the URLs in use, stated on the paths -/
+def InjOn (used : U → Prop) : Prop :=
+  ∀ u v, used u → used v → filePath root dg u = filePath root dg v → u = v
+
+theorem agrees_write {used : U → Prop} (hinj : InjOn root dg used) {fs : FS C} {st : U → Option C}
+    (hag : Agrees root dg used fs st) {u : U} (hu : used u) (c : C) :
+    Agrees root dg used (fs.write (filePath root dg u) c) (update st u c) := by
+  intro v hv
+  unfold update
+  by_cases hvu : v = u
+  · subst hvu; simp [read_write_same]
+  · have hne : filePath root dg v ≠ filePath root dg u := fun e => hvu (hinj v u hv hu e)
+    rw [read_write_other _ _ _ _ hne]
+    simp [hvu, hag v hv]
+
+theorem step_refines {used : U → Prop} (hinj : InjOn root dg used) {fs : FS C} {st : U → Option C}
+    (hag : Agrees root dg used fs st) (op : Op U D C) (hop : used op.url) :
+    (step cd root dg fs op).2 = specOut cd st op ∧
+      Agrees root dg used (step cd root dg fs op).1 (specStep cd st op) := by
+  cases op with
+  | setNil u => exact ⟨rfl, hag⟩
+  | set u b d =>
+    cases b with
+    | none => exact ⟨rfl, hag⟩
+    | some b => exact ⟨rfl, agrees_write root dg hinj hag hop _⟩
+  | get u now =>
+    refine ⟨?_, hag⟩
+    simp only [step, specOut]
+    rw [hag u hop]
+  | plant u c => exact ⟨rfl, agrees_write root dg hinj hag hop _⟩
+
+/-- **C15, refinement.** Under digest injectivity on the URLs in use, every sequence of
+operations on the directory returns exactly what the same sequence returns on the map
+`URL → Option content`, and the two stay in agreement. -/
+theorem exec_refines {used : U → Prop} (hinj : InjOn root dg used) :
+    ∀ (ops : List (Op U D C)) (fs : FS C) (st : U → Option C), Agrees root dg used fs st →
+      (∀ op ∈ ops, used op.url) →
+      (exec cd root dg fs ops).2 = specExec cd st ops ∧
+        Agrees root dg used (exec cd root dg fs ops).1 (finalSpec cd st ops) := by
+  intro ops
+  induction ops with
+  | nil => intro fs st hag _; exact ⟨rfl, hag⟩
+  | cons op ops ih =>
+    intro fs st hag hops
+    have h1 := step_refines cd root dg hinj hag op (hops op (by simp))
+    have h2 := ih _ _ h1.2 (fun o ho => hops o (by simp [ho]))
+    simp only [exec, specExec, finalSpec]
+    exact ⟨by rw [h1.1, h2.1], h2.2⟩
+
+omit [DecidableEq U] in
+theorem exec_length (ops : List (Op U D C)) : ∀ fs : FS C, (exec cd root dg fs ops).2.length = ops.length := by
+  induction ops with
+  | nil => intro fs; rfl
+  | cons op ops ih => intro fs; simp [exec, ih]
+
+omit [DecidableEq U] in
+/-- every path an operation sequence creates belongs to one of its URLs -/
+theorem exec_keys : ∀ (ops : List (Op U D C)) (fs : FS C) (e : Text × C),
+    e ∈ (exec cd root dg fs ops).1 → e ∈ fs ∨ ∃ op ∈ ops, e.1 = filePath root dg op.url := by
+  intro ops
+  induction ops with
+  | nil => intro fs e h; exact Or.inl h
+  | cons op ops ih =>
+    intro fs e h
+    simp only [exec] at h
+    rcases ih _ e h with h' | ⟨o, ho, he⟩
+    · have : e ∈ fs ∨ e.1 = filePath root dg op.url := by
+        cases op with
+        | setNil u => exact Or.inl h'
+        | get u now => exact Or.inl h'
+        | set u b d =>
+          cases b with
+          | none => exact Or.inl h'
+          | some b =>
+            rcases mem_write h' with h'' | h''
+            · exact Or.inr (by rw [h'']; rfl)
+            · exact Or.inl h''
+        | plant u c =>
+          rcases mem_write h' with h'' | h''
+          · exact Or.inr (by rw [h'']; rfl)
+          · exact Or.inl h''
+      rcases this with h'' | h''
+      · exact Or.inl h''
+      · exact Or.inr ⟨op, by simp, h''⟩
+    · exact Or.inr ⟨o, by simp [ho], he⟩
+
+omit [DecidableEq U] in
+/-- **C15 `confined`, the frame.** Whatever the URLs are, an operation sequence leaves every
+path that is not `root/<64 hex>` exactly as it was: nothing outside the root, no other name
+inside it, is created, replaced or read as an entry. -/
+theorem confined (h32 : ∀ u, (dg u).length = 32) :
+    ∀ (ops : List (Op U D C)) (fs : FS C) (p : Text), isCachePath root p = false →
+      (exec cd root dg fs ops).1.read p = fs.read p := by
+  intro ops
+  induction ops with
+  | nil => intro fs p _; rfl
+  | cons op ops ih =>
+    intro fs p hp
+    simp only [exec]
+    rw [ih _ p hp]
+    have hne : ∀ u, p ≠ filePath root dg u := by
+      intro u e
+      rw [e, filePath_isCachePath root dg u (h32 u)] at hp
+      exact Bool.noConfusion hp
+    cases op with
+    | setNil u => rfl
+    | get u now => rfl
+    | set u b d =>
+      cases b with
+      | none => rfl
+      | some b => exact read_write_other _ _ _ _ (hne u)
+    | plant u c => exact read_write_other _ _ _ _ (hne u)
+
+/-! #### the abstract store after a sequence -/
+
+/-- the URL whose entry an operation replaces, if any -/
+def writes : Op U D C → Option U
+  | .set u (some _) _ => some u
+  | .plant u _ => some u
+  | _ => none
+
+theorem specStep_other (st : U → Option C) (op : Op U D C) (u : U) (h : writes op ≠ some u) :
+    specStep cd st op u = st u := by
+  cases op with
+  | setNil v => rfl
+  | get v now => rfl
+  | set v b d =>
+    cases b with
+    | none => rfl
+    | some b =>
+      have : u ≠ v := fun e => h (by simp [writes, e])
+      simp [specStep, update, this]
+  | plant v c =>
+    have : u ≠ v := fun e => h (by simp [writes, e])
+    simp [specStep, update, this]
+
+theorem finalSpec_append (st : U → Option C) (a b : List (Op U D C)) :
+    finalSpec cd st (a ++ b) = finalSpec cd (finalSpec cd st a) b := by
+  induction a generalizing st with
+  | nil => rfl
+  | cons op a ih => simp only [List.cons_append, finalSpec, ih]
+
+theorem finalSpec_untouched (u : U) : ∀ (ops : List (Op U D C)) (st : U → Option C),
+    (∀ op ∈ ops, writes op ≠ some u) → finalSpec cd st ops u = st u := by
+  intro ops
+  induction ops with
+  | nil => intro st _; rfl
+  | cons op ops ih =>
+    intro st h
+    simp only [finalSpec]
+    rw [ih _ (fun o ho => h o (by simp [ho])), specStep_other cd st op u (h op (by simp))]
+
+/-- the store at `u` depends only on the operations on `u` -/
+theorem finalSpec_filter (u : U) : ∀ (ops : List (Op U D C)) (st st' : U → Option C), st u = st' u →
+    finalSpec cd st ops u = finalSpec cd st' (ops.filter (fun op => decide (op.url = u))) u := by
+  intro ops
+  induction ops with
+  | nil => intro st st' h; exact h
+  | cons op ops ih =>
+    intro st st' h
+    by_cases hop : op.url = u
+    · simp only [List.filter, hop, decide_true, finalSpec]
+      apply ih
+      cases op with
+      | setNil v => exact h
+      | get v now => exact h
+      | set v b d =>
+        cases b with
+        | none => exact h
+        | some b =>
+          have : v = u := hop
+          subst this
+          simp [specStep, update]
+      | plant v c =>
+        have : v = u := hop
+        subst this
+        simp [specStep, update]
+    · simp only [List.filter, hop, decide_false, finalSpec]
+      apply ih
+      rw [specStep_other cd st op u ?_]
+      · exact h
+      · intro hw
+        apply hop
+        cases op with
+        | setNil v => simp [writes] at hw
+        | get v now => simp [writes] at hw
+        | set v b d =>
+          cases b with
+          | none => simp [writes] at hw
+          | some b => simpa [writes, Op.url] using hw
+        | plant v c => simpa [writes, Op.url] using hw
+
+end Refinement
+
+/-! ### (5) what a read returns -/
+
+section GetContent
+variable {D C : Type} (cd : Codec D C)
+
+theorem checkExpiry_fresh_iff (now : Int) (x : Option Int) :
+    checkExpiry now x = .fresh ↔ ∃ t, x = some t ∧ now ≤ t := by
+  cases x with
+  | none => simp [checkExpiry]
+  | some t =>
+    by_cases h : now > t
+    · simp [checkExpiry, h]
+    · simp [checkExpiry, h]; omega
+
+/-- the boundary: at `now = nextUpdate` the CRL is still fresh (`After` is strict) -/
+theorem checkExpiry_boundary (t : Int) : checkExpiry t (some t) = .fresh := by
+  simp [checkExpiry]
+
+theorem checkExpiry_one_later (t : Int) : checkExpiry (t + 1) (some t) = .expired := by
+  simp [checkExpiry]; omega
+
+/-- **C15 "only fresh, byte-faithful".** `Get` hands out a bundle only if the stored content is a
+well-formed entry holding exactly those base / delta bytes, both parse, both carry a
+`NextUpdate`, and neither has passed it. -/
+theorem bundle_only_if_wellformed_and_fresh (now : Int) (c : C) (b : D) (d : Option D)
+    (h : getContent cd now c = .bundle b d) :
+    cd.decode c = some (b, d) ∧ (∃ tb, cd.parse b = some (some tb) ∧ now ≤ tb) ∧
+      (∀ dd, d = some dd → ∃ td, cd.parse dd = some (some td) ∧ now ≤ td) := by
+  unfold getContent at h
+  cases hdec : cd.decode c with
+  | none => simp [hdec] at h
+  | some bd =>
+    obtain ⟨b0, d0⟩ := bd
+    simp only [hdec] at h
+    cases hpb : cd.parse b0 with
+    | none => simp [hpb] at h
+    | some nub =>
+      simp only [hpb] at h
+      cases d0 with
+      | none =>
+        simp only [] at h
+        cases hcb : checkExpiry now nub <;> simp [hcb] at h
+        obtain ⟨rfl, rfl⟩ := h
+        obtain ⟨tb, rfl, htb⟩ := (checkExpiry_fresh_iff now nub).1 hcb
+        exact ⟨rfl, ⟨tb, hpb, htb⟩, by intro dd hdd; cases hdd⟩
+      | some dd0 =>
+        simp only [] at h
+        cases hpd : cd.parse dd0 with
+        | none => simp [hpd] at h
+        | some nud =>
+          simp only [hpd] at h
+          cases hcb : checkExpiry now nub <;> simp [hcb] at h
+          cases hcd : checkExpiry now nud <;> simp [hcd] at h
+          obtain ⟨rfl, rfl⟩ := h
+          obtain ⟨tb, rfl, htb⟩ := (checkExpiry_fresh_iff now nub).1 hcb
+          obtain ⟨td, rfl, htd⟩ := (checkExpiry_fresh_iff now nud).1 hcd
+          refine ⟨rfl, ⟨tb, hpb, htb⟩, ?_⟩
+          intro dd hdd
+          cases hdd
+          exact ⟨td, hpd, htd⟩
+
+/-- the code's order of checks meets the order-free reading of the property -/
+theorem getContent_meets (now : Int) (c : C) :
+    match classify cd now c with
+    | .bundle b d => getContent cd now c = .bundle b d
+    | .mustMiss => getContent cd now c = .miss
+    | .mustErr => getContent cd now c = .err
+    | .refused => getContent cd now c = .miss ∨ getContent cd now c = .err := by
+  cases hdec : cd.decode c with
+  | none => simp [classify, getContent, hdec]
+  | some bd =>
+    obtain ⟨b, d⟩ := bd
+    cases hpb : cd.parse b with
+    | none =>
+      cases d with
+      | none => simp [classify, getContent, malformedCrl, expiredCrl, checkExpiry, *]
+      | some dd =>
+        cases hpd : cd.parse dd with
+        | none => simp [classify, getContent, malformedCrl, expiredCrl, checkExpiry, *]
+        | some nud =>
+          cases nud with
+          | none => simp [classify, getContent, malformedCrl, expiredCrl, checkExpiry, *]
+          | some td =>
+            by_cases h2 : now > td <;> simp [classify, getContent, malformedCrl, expiredCrl, checkExpiry, *]
+    | some nub =>
+      cases nub with
+      | none =>
+        cases d with
+        | none => simp [classify, getContent, malformedCrl, expiredCrl, checkExpiry, *]
+        | some dd =>
+          cases hpd : cd.parse dd with
+          | none => simp [classify, getContent, malformedCrl, expiredCrl, checkExpiry, *]
+          | some nud =>
+            cases nud with
+            | none => simp [classify, getContent, malformedCrl, expiredCrl, checkExpiry, *]
+            | some td =>
+              by_cases h2 : now > td <;> simp [classify, getContent, malformedCrl, expiredCrl, checkExpiry, *]
+      | some tb =>
+        cases d with
+        | none =>
+          by_cases h1 : now > tb <;> simp [classify, getContent, malformedCrl, expiredCrl, checkExpiry, *]
+        | some dd =>
+          cases hpd : cd.parse dd with
+          | none =>
+            by_cases h1 : now > tb <;> simp [classify, getContent, malformedCrl, expiredCrl, checkExpiry, *]
+          | some nud =>
+            cases nud with
+            | none =>
+              by_cases h1 : now > tb <;> simp [classify, getContent, malformedCrl, expiredCrl, checkExpiry, *]
+            | some td =>
+              by_cases h1 : now > tb <;> by_cases h2 : now > td <;>
+                simp [classify, getContent, malformedCrl, expiredCrl, checkExpiry, *]
+
+/-- reading back what `Set` encoded, while fresh: exactly the bytes that were stored -/
+theorem getContent_encode_fresh (now : Int) (b : D) (d : Option D) (tb : Int)
+    (hb : cd.parse b = some (some tb)) (hfb : now ≤ tb)
+    (hd : ∀ dd, d = some dd → ∃ td, cd.parse dd = some (some td) ∧ now ≤ td) :
+    getContent cd now (cd.encode b d) = .bundle b d := by
+  have h1 : ¬ now > tb := by omega
+  unfold getContent
+  rw [cd.roundtrip]
+  cases d with
+  | none => simp [hb, checkExpiry, h1]
+  | some dd =>
+    obtain ⟨td, hpd, hfd⟩ := hd dd rfl
+    have h2 : ¬ now > td := by omega
+    simp [hb, hpd, checkExpiry, h1, h2]
+
+/-- reading back what `Set` encoded once the base CRL has passed its next-update -/
+theorem getContent_encode_base_expired (now : Int) (b : D) (d : Option D) (tb : Int)
+    (hb : cd.parse b = some (some tb)) (hxb : now > tb)
+    (hd : ∀ dd, d = some dd → (cd.parse dd).isSome) :
+    getContent cd now (cd.encode b d) = .miss := by
+  unfold getContent
+  rw [cd.roundtrip]
+  cases d with
+  | none => simp [hb, checkExpiry, hxb]
+  | some dd =>
+    have := hd dd rfl
+    cases hpd : cd.parse dd with
+    | none => simp [hpd] at this
+    | some nud => simp [hb, hpd, checkExpiry, hxb]
+
+/-- ... or the delta CRL has, the base still being fresh -/
+theorem getContent_encode_delta_expired (now : Int) (b dd : D) (tb td : Int)
+    (hb : cd.parse b = some (some tb)) (hfb : now ≤ tb)
+    (hd : cd.parse dd = some (some td)) (hxd : now > td) :
+    getContent cd now (cd.encode b (some dd)) = .miss := by
+  have h1 : ¬ now > tb := by omega
+  unfold getContent
+  rw [cd.roundtrip]
+  simp [hb, hd, checkExpiry, h1, hxd]
+
+/-- content that does not decode, or whose base / delta bytes are not a CRL, is an error at
+every time - never a bundle, never a miss -/
+theorem getContent_malformed (now : Int) (c : C)
+    (h : cd.decode c = none ∨ (∃ b d, cd.decode c = some (b, d) ∧ cd.parse b = none) ∨
+      (∃ b dd, cd.decode c = some (b, some dd) ∧ cd.parse dd = none)) :
+    getContent cd now c = .err := by
+  unfold getContent
+  rcases h with h | ⟨b, d, h, hb⟩ | ⟨b, dd, h, hd⟩
+  · simp [h]
+  · simp [h, hb]
+  · simp only [h]
+    cases hpb : cd.parse b with
+    | none => rfl
+    | some nub => simp [hd]
+
+end GetContent
+
+section Readable
+variable {U D C : Type} [DecidableEq U] (cd : Codec D C) (root : Text) (dg : U → List Nat)
+
+/-- the answer of `Get(u)` at time `now` after the operations `ops` on an empty cache -/
+def getAfter (ops : List (Op U D C)) (u : U) (now : Int) : Out D :=
+  (step cd root dg (exec cd root dg [] ops).1 (.get u now)).2
+
+/-- the content last stored under `u` by `ops` -/
+def lastStored (ops : List (Op U D C)) (u : U) : Option C := finalSpec cd (fun _ => none) ops u
+
+/-- the content under `u` after `pre ++ [op that writes c to u] ++ post`, `post` not writing `u` -/
+theorem lastStored_set (pre post : List (Op U D C)) (u : U) (b : D) (d : Option D)
+    (hpost : ∀ op ∈ post, writes op ≠ some u) :
+    lastStored cd (pre ++ .set u (some b) d :: post) u = some (cd.encode b d) := by
+  unfold lastStored
+  rw [finalSpec_append]
+  simp only [finalSpec]
+  rw [finalSpec_untouched cd u post _ hpost]
+  simp [specStep, update]
+
+theorem lastStored_plant (pre post : List (Op U D C)) (u : U) (c : C)
+    (hpost : ∀ op ∈ post, writes op ≠ some u) :
+    lastStored cd (pre ++ .plant u c :: post) u = some c := by
+  unfold lastStored
+  rw [finalSpec_append]
+  simp only [finalSpec]
+  rw [finalSpec_untouched cd u post _ hpost]
+  simp [specStep, update]
+
+variable {used : U → Prop} (hinj : InjOn root dg used)
+include hinj
+
+/-- **C15, refinement, as one equation**: the read returns what the content last written under
+that very URL yields - a miss if there is none. -/
+theorem get_eq_last_stored (ops : List (Op U D C)) (hops : ∀ op ∈ ops, used op.url) (u : U) (hu : used u)
+    (now : Int) :
+    getAfter cd root dg ops u now =
+      match lastStored cd ops u with
+      | none => .miss
+      | some c => getContent cd now c := by
+  have h := exec_refines cd root dg hinj ops [] (fun _ => none) (by intro v _; rfl) hops
+  have h2 := step_refines cd root dg hinj h.2 (.get u now) hu
+  unfold getAfter lastStored
+  rw [h2.1]
+  rfl
+
+/-- **`never_stored_is_miss`** -/
+theorem never_stored_is_miss (ops : List (Op U D C)) (hops : ∀ op ∈ ops, used op.url) (u : U) (hu : used u)
+    (now : Int) (hnever : ∀ op ∈ ops, writes op ≠ some u) :
+    getAfter cd root dg ops u now = .miss := by
+  rw [get_eq_last_stored cd root dg hinj ops hops u hu]
+  unfold lastStored
+  rw [finalSpec_untouched cd u ops _ hnever]
+
+/-- **`get_after_set`**: after `Set(u, {b, d})`, whatever happened before and whatever happens
+afterwards to other URLs (including near-identical ones), `Get(u)` returns exactly `b` and `d`
+as long as neither has passed its next-update (`now ≤ nextUpdate`, boundary included). -/
+theorem get_after_set (pre post : List (Op U D C)) (u : U) (b : D) (d : Option D) (now tb : Int)
+    (hops : ∀ op ∈ pre ++ .set u (some b) d :: post, used op.url) (hu : used u)
+    (hpost : ∀ op ∈ post, writes op ≠ some u)
+    (hb : cd.parse b = some (some tb)) (hfb : now ≤ tb)
+    (hd : ∀ dd, d = some dd → ∃ td, cd.parse dd = some (some td) ∧ now ≤ td) :
+    getAfter cd root dg (pre ++ .set u (some b) d :: post) u now = .bundle b d := by
+  rw [get_eq_last_stored cd root dg hinj _ hops u hu, lastStored_set cd pre post u b d hpost]
+  exact getContent_encode_fresh cd now b d tb hb hfb hd
+
+/-- **`expired_is_miss`** (base): once `now` is after the base CRL's next-update -/
+theorem expired_is_miss_base (pre post : List (Op U D C)) (u : U) (b : D) (d : Option D) (now tb : Int)
+    (hops : ∀ op ∈ pre ++ .set u (some b) d :: post, used op.url) (hu : used u)
+    (hpost : ∀ op ∈ post, writes op ≠ some u)
+    (hb : cd.parse b = some (some tb)) (hxb : now > tb)
+    (hd : ∀ dd, d = some dd → (cd.parse dd).isSome) :
+    getAfter cd root dg (pre ++ .set u (some b) d :: post) u now = .miss := by
+  rw [get_eq_last_stored cd root dg hinj _ hops u hu, lastStored_set cd pre post u b d hpost]
+  exact getContent_encode_base_expired cd now b d tb hb hxb hd
+
+/-- **`expired_is_miss`** (delta): the base still fresh, `now` after the delta CRL's next-update -/
+theorem expired_is_miss_delta (pre post : List (Op U D C)) (u : U) (b dd : D) (now tb td : Int)
+    (hops : ∀ op ∈ pre ++ .set u (some b) (some dd) :: post, used op.url) (hu : used u)
+    (hpost : ∀ op ∈ post, writes op ≠ some u)
+    (hb : cd.parse b = some (some tb)) (hfb : now ≤ tb)
+    (hd : cd.parse dd = some (some td)) (hxd : now > td) :
+    getAfter cd root dg (pre ++ .set u (some b) (some dd) :: post) u now = .miss := by
+  rw [get_eq_last_stored cd root dg hinj _ hops u hu, lastStored_set cd pre post u b (some dd) hpost]
+  exact getContent_encode_delta_expired cd now b dd tb td hb hfb hd hxd
+
+/-- **`last_write_wins`**: of two stores under the same URL only the later one matters -
+the read is the same as if the cache had only ever seen the later store. -/
+theorem last_write_wins (pre mid post : List (Op U D C)) (u : U) (b₁ b₂ : D) (d₁ d₂ : Option D) (now : Int)
+    (hops : ∀ op ∈ pre ++ .set u (some b₁) d₁ :: (mid ++ .set u (some b₂) d₂ :: post), used op.url)
+    (hu : used u) (hpost : ∀ op ∈ post, writes op ≠ some u) :
+    getAfter cd root dg (pre ++ .set u (some b₁) d₁ :: (mid ++ .set u (some b₂) d₂ :: post)) u now =
+      getContent cd now (cd.encode b₂ d₂) := by
+  rw [get_eq_last_stored cd root dg hinj _ hops u hu]
+  have e : pre ++ .set u (some b₁) d₁ :: (mid ++ .set u (some b₂) d₂ :: post) =
+      (pre ++ .set u (some b₁) d₁ :: mid) ++ .set u (some b₂) d₂ :: post := by simp
+  rw [e, lastStored_set cd _ post u b₂ d₂ hpost]
+
+/-- **`distinct_urls_isolated`**: under digest injectivity on the URLs in use, the answer for `u`
+is the answer of the cache that only ever saw the operations on `u` itself: no operation on
+any other URL string - however similar - shares or overwrites its entry. -/
+theorem distinct_urls_isolated (ops : List (Op U D C)) (hops : ∀ op ∈ ops, used op.url) (u : U) (hu : used u)
+    (now : Int) :
+    getAfter cd root dg ops u now =
+      getAfter cd root dg (ops.filter (fun op => decide (op.url = u))) u now := by
+  rw [get_eq_last_stored cd root dg hinj ops hops u hu,
+    get_eq_last_stored cd root dg hinj _ (fun op h => hops op (List.mem_filter.1 h).1) u hu]
+  unfold lastStored
+  rw [finalSpec_filter cd u ops _ (fun _ => none) rfl]
+
+/-- **`malformed_is_error`**: a stored file that does not decode (or whose base / delta bytes
+are not a CRL) yields an error at every time, never a bundle -/
+theorem malformed_is_error (pre post : List (Op U D C)) (u : U) (c : C) (now : Int)
+    (hops : ∀ op ∈ pre ++ .plant u c :: post, used op.url) (hu : used u)
+    (hpost : ∀ op ∈ post, writes op ≠ some u)
+    (hbad : cd.decode c = none ∨ (∃ b d, cd.decode c = some (b, d) ∧ cd.parse b = none) ∨
+      (∃ b dd, cd.decode c = some (b, some dd) ∧ cd.parse dd = none)) :
+    getAfter cd root dg (pre ++ .plant u c :: post) u now = .err := by
+  rw [get_eq_last_stored cd root dg hinj _ hops u hu, lastStored_plant cd pre post u c hpost]
+  exact getContent_malformed cd now c hbad
+
+/-- any bundle any read ever returns is byte-for-byte the well-formed, fresh content last
+stored under that URL -/
+theorem bundle_is_last_stored (ops : List (Op U D C)) (hops : ∀ op ∈ ops, used op.url) (u : U) (hu : used u)
+    (now : Int) (b : D) (d : Option D) (h : getAfter cd root dg ops u now = .bundle b d) :
+    ∃ c, lastStored cd ops u = some c ∧ cd.decode c = some (b, d) ∧
+      (∃ tb, cd.parse b = some (some tb) ∧ now ≤ tb) ∧
+      (∀ dd, d = some dd → ∃ td, cd.parse dd = some (some td) ∧ now ≤ td) := by
+  rw [get_eq_last_stored cd root dg hinj ops hops u hu] at h
+  cases hl : lastStored cd ops u with
+  | none => simp [hl] at h
+  | some c =>
+    simp only [hl] at h
+    exact ⟨c, rfl, bundle_only_if_wellformed_and_fresh cd now c b d h⟩
+
+end Readable
+
+/-! ### (6) the executable instance: every clause of `Holds` is true of the model -/
+
+theorem toOp_url (o : OpJ) : (toOp o).url = o.url := by
+  unfold toOp
+  cases o.kind <;> rfl
+
+theorem digestOf_lt (i : Input) (u : Nat) (h : u < i.urls.length) : digestOf i u = (i.urls[u]).digest := by
+  simp [digestOf, List.getElem?_eq_getElem h]
+
+/-- what the decidable check `wf` gives -/
+theorem wf_spec (i : Input) (h : wf i = true) :
+    (∀ u, u < i.urls.length → (digestOf i u).length = 32 ∧ ∀ b ∈ digestOf i u, b < 256) ∧
+    (∀ u v, u < i.urls.length → v < i.urls.length → digestOf i u = digestOf i v → u = v) ∧
+    (∀ o ∈ i.ops, o.url < i.urls.length) := by
+  simp only [wf, Bool.and_eq_true, List.all_eq_true, beq_iff_eq, decide_eq_true_eq] at h
+  obtain ⟨⟨h1, h2⟩, h3⟩ := h
+  refine ⟨?_, ?_, h3⟩
+  · intro u hu
+    rw [digestOf_lt i u hu]
+    exact h1 _ (List.getElem_mem hu)
+  · intro u v hu hv he
+    rw [digestOf_lt i u hu, digestOf_lt i v hv] at he
+    rw [List.nodup_iff_pairwise_ne, List.pairwise_iff_getElem] at h2
+    have hlen : (i.urls.map (·.digest)).length = i.urls.length := by simp
+    by_cases huv : u = v
+    · exact huv
+    · exfalso
+      rcases Nat.lt_or_gt_of_ne huv with hlt | hgt
+      · have := h2 u v (by omega) (by omega) hlt
+        simp only [List.getElem_map] at this
+        exact this he
+      · have := h2 v u (by omega) (by omega) hgt
+        simp only [List.getElem_map] at this
+        exact this he.symm
+
+/-- **`distinct_urls_isolated`, hypothesis discharged for a well-formed case**: distinct URLs of the
+table have distinct entry paths -/
+theorem wf_injOn (i : Input) (h : wf i = true) :
+    InjOn absRoot (digestOf i) (fun u => u < i.urls.length) := by
+  obtain ⟨h1, h2, _⟩ := wf_spec i h
+  intro u v hu hv he
+  exact h2 u v hu hv (filePath_inj absRoot (digestOf i) u v (h1 u hu).2 (h1 v hv).2 he)
+
+theorem opCheck_spec (st : Nat → Option Content) (op : Op Nat CrlRef Content) :
+    (opCheck st op (toOutJ (specOut absCodec st op))).2 = true := by
+  cases op with
+  | setNil u => simp [opCheck, specOut, toOutJ]
+  | set u b d => cases b <;> simp [opCheck, specOut, toOutJ]
+  | plant u c => simp [opCheck, specOut, toOutJ]
+  | get u now =>
+    simp only [opCheck, specOut]
+    cases hst : st u with
+    | none => simp [toOutJ]
+    | some c =>
+      have hm := getContent_meets absCodec now c
+      simp only []
+      cases hcl : classify absCodec now c with
+      | bundle b d => simp only [hcl] at hm; simp [hm, toOutJ]
+      | mustMiss => simp only [hcl] at hm; simp [hm, toOutJ]
+      | mustErr => simp only [hcl] at hm; simp [hm, toOutJ]
+      | refused =>
+        simp only [hcl] at hm
+        rcases hm with hm | hm <;> simp [hm, toOutJ]
+
+theorem checks_spec : ∀ (ops : List (Op Nat CrlRef Content)) (st : Nat → Option Content),
+    ∀ p ∈ checks st ops ((specExec absCodec st ops).map toOutJ), p.2 = true := by
+  intro ops
+  induction ops with
+  | nil => intro st p hp; simp [checks] at hp
+  | cons op ops ih =>
+    intro st p hp
+    simp only [specExec, List.map_cons, checks, List.mem_cons] at hp
+    rcases hp with hp | hp
+    · rw [hp]; exact opCheck_spec st op
+    · exact ih _ p hp
+
+theorem sel_true (cs : List (Cat × Bool)) (h : ∀ p ∈ cs, p.2 = true) (c : Cat) :
+    cs.all (fun p => p.1 != c || p.2) = true := by
+  rw [List.all_eq_true]
+  intro p hp
+  simp [h p hp]
+
+/-- **C15, the whole property**: for every well-formed case (digests of 32 bytes, pairwise
+distinct on the URL table, operations naming table URLs - `wf` is decidable and is itself the
+first clause, so every generated case is checked to satisfy it) every clause of `Holds` is true
+of the model's behaviour, for operation sequences of any length. -/
+theorem model_holds (i : Input) (h : wf i = true) : Holds i (run i) = true := by
+  obtain ⟨hdig, _, hopsJ⟩ := wf_spec i h
+  have hinj := wf_injOn i h
+  have hused : ∀ op ∈ i.ops.map toOp, op.url < i.urls.length := by
+    intro op hop
+    obtain ⟨o, ho, rfl⟩ := List.mem_map.1 hop
+    rw [toOp_url]; exact hopsJ o ho
+  have href := exec_refines absCodec absRoot (digestOf i) hinj (i.ops.map toOp) [] emptyStore
+    (by intro u _; rfl) hused
+  have hkeys : ∀ e ∈ (exec absCodec absRoot (digestOf i) [] (i.ops.map toOp)).1,
+      ∃ u, u < i.urls.length ∧ e.1 = filePath absRoot (digestOf i) u := by
+    intro e he
+    rcases exec_keys absCodec absRoot (digestOf i) _ [] e he with h' | ⟨op, hop, he'⟩
+    · simp at h'
+    · exact ⟨op.url, hused op hop, he'⟩
+  have hchecks := checks_spec (i.ops.map toOp) emptyStore
+  rw [← href.1] at hchecks
+  unfold Holds clauses
+  simp only [Clauses.holds_cons, Clauses.holds_nil, Bool.and_true, Bool.and_eq_true]
+  refine ⟨h, ?_, ⟨sel_true _ hchecks _, sel_true _ hchecks _⟩, sel_true _ hchecks _, sel_true _ hchecks _,
+    sel_true _ hchecks _, sel_true _ hchecks _, sel_true _ hchecks _, sel_true _ hchecks _, ⟨?_, ?_⟩, ?_, ?_⟩
+  · simp [run, exec_length]
+  · -- which entry files exist = which URLs have something stored
+    simp only [run, tablePaths, List.map_map, beq_iff_eq]
+    apply List.map_congr_left
+    intro u hu
+    have hu' : u < i.urls.length := List.mem_range.1 hu
+    simp only [Function.comp]
+    rw [href.2 u hu']
+  · -- nothing else lives in the root
+    simp only [run, beq_iff_eq, List.countP_eq_zero]
+    intro e he
+    obtain ⟨u, hu, heq⟩ := hkeys e he
+    have hmem : e.1 ∈ tablePaths i := by
+      simp only [tablePaths, List.mem_map, List.mem_range]
+      exact ⟨u, hu, heq.symm⟩
+    simp [hmem]
+  · simp only [run, List.all_eq_true]
+    intro e he
+    obtain ⟨u, hu, heq⟩ := hkeys e he
+    rw [heq]
+    exact filePath_isCachePath absRoot (digestOf i) u (hdig u hu).1
+  · simp only [run, Bool.not_eq_true', List.any_eq_false]
+    intro e he
+    obtain ⟨u, hu, heq⟩ := hkeys e he
+    rw [heq, filePath_under_root]
+    simp
+
+/-! #### readable consequences for the executable instance -/
+
+/-- the model's results are exactly those of the map `URL index → Option content` -/
+theorem run_results_refine (i : Input) (h : wf i = true) :
+    (run i).results = (specExec absCodec emptyStore (i.ops.map toOp)).map toOutJ := by
+  have hused : ∀ op ∈ i.ops.map toOp, op.url < i.urls.length := by
+    intro op hop
+    obtain ⟨o, ho, rfl⟩ := List.mem_map.1 hop
+    rw [toOp_url]; exact (wf_spec i h).2.2 o ho
+  have href := exec_refines absCodec absRoot (digestOf i) (wf_injOn i h) (i.ops.map toOp) [] emptyStore
+    (by intro u _; rfl) hused
+  simp only [run]
+  rw [href.1]
+
+theorem run_confined (i : Input) (h : wf i = true) :
+    (run i).allHex = true ∧ (run i).outsideChanged = false ∧ (run i).stray = 0 := by
+  have := model_holds i h
+  simp only [Holds, clauses, Clauses.holds_cons, Clauses.holds_nil, Bool.and_true, Bool.and_eq_true,
+    beq_iff_eq, Bool.not_eq_true'] at this
+  obtain ⟨_, _, _, _, _, _, _, _, _, ⟨_, h10⟩, h11, h12⟩ := this
+  exact ⟨h11, h12, h10⟩
+
+/-! #### non-vacuity -/
+
+def exDigest (k : Nat) : List Nat := k :: List.replicate 31 7
+
+def exFresh : CrlRef := { id := 0, parses := true, nextUpdate := some 75 }
+def exDelta : CrlRef := { id := 1, parses := true, nextUpdate := some 3600 }
+def exExpired : CrlRef := { id := 2, parses := true, nextUpdate := some (-75) }
+
+def exOp (k : Kind) (u : Nat) (b d : Option CrlRef) (ok : Bool := false) : OpJ :=
+  { kind := k, url := u, base := b, delta := d, now := 0, jsonOk := ok, what := "" }
+
+/-- two near-identical URLs; store under the first, read both, overwrite with an expired CRL,
+plant an undecodable file under the second -/
+def exInput : Input :=
+  { urls := [{ text := "http://a/crl", digest := exDigest 1 }, { text := "http://a/crl/", digest := exDigest 2 }],
+    ops := [exOp .set 0 (some exFresh) (some exDelta), exOp .get 0 none none, exOp .get 1 none none,
+            exOp .set 0 (some exExpired) none, exOp .get 0 none none,
+            exOp .plant 1 none none, exOp .get 1 none none, exOp .setNil 1 none none] }
+
+example : wf exInput = true := by decide
+
+example : run exInput =
+    { results := [⟨.ok, none, none⟩, ⟨.bundle, some 0, some 1⟩, ⟨.miss, none, none⟩, ⟨.ok, none, none⟩,
+                  ⟨.miss, none, none⟩, ⟨.ok, none, none⟩, ⟨.err, none, none⟩, ⟨.err, none, none⟩],
+      present := [true, true], stray := 0, files := 2, allHex := true, outsideChanged := false } := by decide
+
+example : Holds exInput (run exInput) = true := by decide
+
+/-- a cache that answers the near-identical URL from the first URL's entry violates the property -/
+example : Holds exInput
+    { results := [⟨.ok, none, none⟩, ⟨.bundle, some 0, some 1⟩, ⟨.bundle, some 0, some 1⟩, ⟨.ok, none, none⟩,
+                  ⟨.miss, none, none⟩, ⟨.ok, none, none⟩, ⟨.err, none, none⟩, ⟨.err, none, none⟩],
+      present := [true, true], stray := 0, files := 2, allHex := true, outsideChanged := false } = false := by decide
+
+/-- ... and so does one that keeps serving an expired CRL -/
+example : Holds exInput
+    { results := [⟨.ok, none, none⟩, ⟨.bundle, some 0, some 1⟩, ⟨.miss, none, none⟩, ⟨.ok, none, none⟩,
+                  ⟨.bundle, some 2, none⟩, ⟨.ok, none, none⟩, ⟨.err, none, none⟩, ⟨.err, none, none⟩],
+      present := [true, true], stray := 0, files := 2, allHex := true, outsideChanged := false } = false := by decide
+
+/-- ... one that returns other bytes than were stored, one that writes a file with another name,
+and one that touches something outside the root -/
+example : Holds exInput
+    { results := [⟨.ok, none, none⟩, ⟨.bundle, some 0, none⟩, ⟨.miss, none, none⟩, ⟨.ok, none, none⟩,
+                  ⟨.miss, none, none⟩, ⟨.ok, none, none⟩, ⟨.err, none, none⟩, ⟨.err, none, none⟩],
+      present := [true, true], stray := 0, files := 2, allHex := true, outsideChanged := false } = false := by decide
+
+example : Holds exInput { (run exInput) with stray := 1, files := 3, allHex := false } = false := by decide
+example : Holds exInput { (run exInput) with outsideChanged := true } = false := by decide
+
+/-- a case whose digests collide is rejected by the first clause, not silently accepted -/
+example : Holds { exInput with urls := [{ text := "a", digest := exDigest 1 }, { text := "b", digest := exDigest 1 }] }
+    (run exInput) = false := by decide
+
+/-- the file name of a traversal-shaped URL is plain hex -/
+example : fileName exDigest 255 =
+    "ff07070707070707070707070707070707070707070707070707070707070707".toList := by decide
 
 end NotationModel.C15
